@@ -24,6 +24,8 @@ Step(e, rg, kn) ==
         /\ Obl(P, sc, <<name, "refusal-required">>)
         /\ Chk(o = "err", P, "Key/" \o name \o "/" \o (IF name = "dpub" THEN "hardened-derivation-from-public-key-not-refused" ELSE "operation-on-wrong-kind-not-refused"), sc, [op |-> op, r |-> r])
         /\ regs' = Append(rg, None) /\ known' = kn
+     \* importing bytes may be refused (not every bit pattern is an extended key): no demand then
+     ELSE IF name = "tweak" /\ o = "err" THEN Note(P, "imported key bytes refused", sc, [op |-> op]) /\ regs' = Append(rg, None) /\ known' = kn
      ELSE IF o # "ok" THEN Fail(P, "Key/" \o name \o "/" \o o, sc, [op |-> op, r |-> r]) /\ regs' = Append(rg, None) /\ known' = kn
      ELSE LET b == r.b IN
           /\ Obl(P, sc, <<name, Kind(term), Lookup(kn, term) # {}>>)
